@@ -164,18 +164,75 @@ class Ctx:
         self.pc.append(cond)
 
     def check_sat(self, extra=(), timeout_ms=None):
+        """satisfiability of pc + extra.  An incremental solver mirrors the
+        path condition (one push level per conjunct); `unknown` falls back to
+        a fresh solver."""
+        self.solver_calls += 1
+        inc = getattr(self, "_inc", None)
+        if inc is None:
+            inc = self._inc = z3.Solver()
+            inc.set("timeout", timeout_ms or self.branch_timeout_ms)
+            self._inc_ids = []
+        ids = self._inc_ids
+        k = 0
+        n = min(len(ids), len(self.pc))
+        while k < n and ids[k] == self.pc[k].get_id():
+            k += 1
+        for _ in range(len(ids) - k):
+            inc.pop()
+        del ids[k:]
+        for c in self.pc[k:]:
+            inc.push()
+            inc.add(c)
+            ids.append(c.get_id())
+        inc.push()
+        for c in extra:
+            inc.add(c)
+        r = inc.check()
+        inc.pop()
+        if r != z3.unknown:
+            return r
         s = z3.Solver()
         s.set("timeout", timeout_ms or self.branch_timeout_ms)
         for c in self.pc:
             s.add(c)
         for c in extra:
             s.add(c)
-        self.solver_calls += 1
         return s.check()
 
     def feasible(self, cond):
         r = self.check_sat([cond])
         return r != z3.unsat        # unknown counts as feasible (sound)
+
+    def _model_valid(self):
+        m = getattr(self, "_model", None)
+        if m is None:
+            return None
+        mod, ids = m
+        if len(ids) > len(self.pc):
+            return None
+        for k, i in enumerate(ids):
+            if self.pc[k].get_id() != i:
+                return None
+        # conjuncts added since the model was taken must hold in it
+        for c in self.pc[len(ids):]:
+            try:
+                if not z3.is_true(mod.eval(c, model_completion=True)):
+                    return None
+            except z3.Z3Exception:
+                return None
+        self._model = (mod, [c.get_id() for c in self.pc])
+        return mod
+
+    def _check_with_model(self, cond):
+        """(feasible?, model or None) for pc + cond"""
+        r = self.check_sat([cond])
+        if r == z3.sat:
+            try:
+                return True, self._inc.model() if False else None
+            except z3.Z3Exception:
+                return True, None
+        return r != z3.unsat, None
 
     # ---- forking
     def branch(self, cond):
@@ -195,8 +252,25 @@ class Ctx:
             d = ex.decisions[ex.pos]
             ex.pos += 1
         else:
-            t = self.feasible(cond)
-            f = self.feasible(z3.Not(cond))
+            known = None
+            mod = self._model_valid()
+            if mod is not None:
+                try:
+                    v = mod.eval(cond, model_completion=True)
+                    if z3.is_true(v):
+                        known = True
+                    elif z3.is_false(v):
+                        known = False
+                except z3.Z3Exception:
+                    known = None
+            if known is True:
+                t, f = True, self.feasible(z3.Not(cond))
+            elif known is False:
+                t, f = self.feasible(cond), True
+            else:
+                t = self.feasible(cond)
+                f = self.feasible(z3.Not(cond)) if t else True
+                self._grab_model(cond if t else z3.Not(cond))
             if t and f:
                 d = True
                 ex.pending.append(ex.decisions[:ex.pos] + [False])
@@ -210,6 +284,19 @@ class Ctx:
             ex.pos += 1
         self.pc.append(cond if d else simp(z3.Not(cond)))
         return d
+
+    def _grab_model(self, cond):
+        """refresh the cached model of pc + cond (one extra solver call, only
+        when no valid model is available)"""
+        s = z3.Solver()
+        s.set("timeout", self.branch_timeout_ms)
+        for c in self.pc:
+            s.add(c)
+        s.add(cond)
+        if s.check() == z3.sat:
+            self._model = (s.model(), [c.get_id() for c in self.pc])
+        else:
+            self._model = None
 
     def choose(self, n):
         """n-way nondeterministic choice (all alternatives explored)"""
@@ -268,6 +355,13 @@ class Ctx:
             g = z3.BoolVal(goal)
         else:
             g = zbool(goal)
+            gs = simp(g)
+            if isinstance(gs, bool):
+                g = z3.BoolVal(gs)
+        if z3.is_true(g) and kind in ("memory-safety", "overflow"):
+            # statically discharged safety side condition (concrete operands)
+            self.trivial = getattr(self, "trivial", 0) + 1
+            return None
         ob = Obligation(name, kind, self.pc, g, self.path_id, info)
         self.obligations.append(ob)
         return ob
@@ -567,11 +661,18 @@ class Interp:
                 return v.term
             return v
         if "[" in ctype and (":" in ctype):
-            # memoryview: must be an array
-            if isinstance(v, SymArr) or v is None:
+            # memoryview: a typed view on the same storage
+            if v is None:
                 return v
             from . import natives
-            return natives.as_memoryview(self, ctype, v)
+            base = ctype.split("[")[0].strip()
+            base = self._aliases().get(base, base)
+            if not isinstance(v, SymArr):
+                v = natives.as_memoryview(self, ctype, v)
+            nd = ctype.count(":")
+            if nd != len(v.shape):
+                self.throw("ValueError", "Buffer has wrong number of dimensions")
+            return v.view(memview=True, ctype=base if (is_int_ctype(base) or is_float_ctype(base)) else v.ctype)
         if "[" in ctype:
             return v
         if ctype.endswith("*"):
@@ -861,6 +962,7 @@ class Interp:
         elif isinstance(t, ast.Subscript):
             obj = self.eval(t.value, env)
             idx = self.eval_index(t.slice, env)
+            self.cur_node = t
             self.setitem(obj, idx, v, env)
         elif isinstance(t, ast.Attribute):
             obj = self.eval(t.value, env)
@@ -1685,6 +1787,10 @@ class Interp:
                 return CV("double", zreal(a.term) / zreal(b.term))
         # literals adapt to the other operand's type if it is wider
         rt = arith_type(ta, tb)
+        if o == "**":
+            # Cython evaluates integer powers with __Pyx_pow_long (C long) unless an
+            # operand is an unsigned 64-bit type
+            rt = "uint64" if "uint64" in (rt,) else "int64"
         x = wrap_int(rt, a.term) if INT_TYPES[rt][1] is False or promote(ta) != rt else a.term
         y = wrap_int(rt, b.term) if INT_TYPES[rt][1] is False or promote(tb) != rt else b.term
         if isinstance(x, int) and isinstance(y, int) and o in ("+", "-", "*"):
@@ -1801,6 +1907,7 @@ class Interp:
         return natives.setattr_(self, obj, name, v)
 
     def ex_Subscript(self, n, env):
+        self.cur_node = n
         obj = self.eval(n.value, env)
         idx = self.eval_index(n.slice, env)
         return self.getitem(obj, idx, env)
@@ -1836,6 +1943,9 @@ class Interp:
             return self.cast(ct, v, env)
         if isinstance(n.func, ast.Name) and n.func.id == "__addr__":
             tgt = n.args[0]
+            if isinstance(tgt, ast.Subscript):
+                from .heap import ElemCell
+                return ElemCell(self.eval(tgt.value, env), self.eval_index(tgt.slice, env))
             if not isinstance(tgt, ast.Name):
                 raise Unsupported("address of non-name")
             e = env.find(tgt.id) or env
